@@ -36,7 +36,8 @@ ACTIONS = ["run", "run", "failrun", "failrun", "dry", "render", "copy_mut", "ori
 
 @st.composite
 def cases(draw, max_nodes):
-    base = draw(regcommon.reg_cases(max_nodes=max_nodes, max_ops=1, faults=False, det_share=0))
+    base = draw(regcommon.reg_cases(max_nodes=max_nodes, max_ops=1, faults=False, det_share=0, store_args=True,
+                                  alias=True, foreign=True))
     g_out = [op.get("output") for op in base["ops"] if op["op"] == "run"]
     n = draw(st.integers(1, 4))
     acts = []
@@ -99,8 +100,11 @@ def check_case(ctx, case, record=True):
     spec = case["spec"]
     w = world.World(spec, registry=True)
     w.init_sources()
+    has_foreign = any(nd.get("foreign") for nd in spec["nodes"])
     for n, act in enumerate(case["acts"]):
         k = act["a"]
+        if k == "concurrent" and has_foreign:
+            k = "run"  # runs over an untransformed source fail; the concurrent action asserts equal results
         tag = f"[action {n}: {k} output={act.get('output')} cfg={act['cfg']}] "
         before = snapshot(w.plan, w.registry)
         transforms = bool(w.registry.mapping) or (act.get("output") is not None and "c" not in act["output"])
